@@ -258,7 +258,13 @@ def judge(spec, results):
                 a, b = base[1], oc[1]
                 if [x[0] for x in a] != [x[0] for x in b]:
                     why = 'NAMES' if len(a) == len(b) else 'ROWCOUNT'
-                    d = 'names/rows differ: %r vs %r' % ([x[0][:20] for x in a][:4], [x[0][:20] for x in b][:4])
+                    if len(a) != len(b):
+                        d = '%d rows vs %d rows' % (len(a), len(b))
+                    else:
+                        k0 = next(i for i in range(len(a)) if a[i][0] != b[i][0])
+                        na, nb = a[k0][0], b[k0][0]
+                        c0 = next((i for i in range(min(len(na), len(nb))) if na[i] != nb[i]), min(len(na), len(nb)))
+                        d = 'row %d is named %r (%d characters) vs %r (%d characters), first difference at character %d' % (k0, na[max(0, c0 - 12):c0 + 12], len(na), nb[max(0, c0 - 12):c0 + 12], len(nb), c0)
                 elif [parsers.degap(x[1]) for x in a] != [parsers.degap(x[1]) for x in b]:
                     why = 'RESIDUES'; d = 'residues differ'
                 else:
